@@ -436,7 +436,10 @@ class RequestHandler(BaseProtocol, Generic[_Request]):
         if handler_cancellation and self._task_handler is not None:
             self._task_handler.cancel()
 
-        self._task_handler = None
+        if handler_cancellation or not self._request_in_progress:
+            self._task_handler = None
+        # else: the handler outlives its connection and stays known, so that
+        # shutdown() can wait for it and cancel it in the end.
 
         if self._payload_parser is not None:
             self._payload_parser.feed_eof()
